@@ -413,6 +413,7 @@ fn match_repr(rule: &Rule, d: &J, repr: &str, variant: u64) -> Result<&'static s
         "ownsigned" => matches(rule, &own_root(d, true)?),
         "doc" => matches(rule, &OwnDoc(own_root(d, false)?)),
         "ownfind" => matches(rule, &find_root(d)?),
+        "flatdoc" => matches(rule, &flat_root(d)?),
         x => return Err(format!("unknown representation {}", x)),
     })
 }
@@ -570,7 +571,15 @@ pub fn run_life(case_in: &J, out: &mut Out, ic_build: bool) {
                 Ok(r) => {
                     let mut e = json!({"ev":"opt","obj":k,"sw":sw,"out":"ok"});
                     if want_expr {
-                        e["expr"] = cps(&expr_text(&r));
+                        // prints are only compared for equality: a long one is carried by its length
+                        // and a 64-bit FNV-1a hash
+                        let t = expr_text(&r);
+                        e["expr"] = if t.len() > 4000 {
+                            let h = t.bytes().fold(0xcbf29ce484222325u64, |a, b| (a ^ b as u64).wrapping_mul(0x100000001b3));
+                            cps(&format!("len {} fnv {:016x}", t.len(), h))
+                        } else {
+                            cps(&t)
+                        };
                     }
                     out.ev(e);
                     r
